@@ -95,7 +95,13 @@ impl Builder {
             "Sdata" => AttributeValue::Sdata(n as i64),
             "Udata" => AttributeValue::Udata(n),
             "ImplicitConst" => AttributeValue::ImplicitConst(n as i64),
-            "Exprloc" => AttributeValue::Exprloc(self.expression(u, &val["ops"])),
+            "Exprloc" => {
+                if val["ops"].is_null() {
+                    AttributeValue::Exprloc(Expression::raw(bytes_of(&val["b"])))
+                } else {
+                    AttributeValue::Exprloc(self.expression(u, &val["ops"]))
+                }
+            }
             "Flag" => AttributeValue::Flag(v.as_bool().unwrap_or(false)),
             "FlagPresent" => AttributeValue::FlagPresent,
             "UnitRef" => AttributeValue::UnitRef(self.entry(u, &val["e"])),
@@ -144,7 +150,7 @@ impl Builder {
             "Inline" => AttributeValue::Inline(constants::DwInl(n as u8)),
             "Ordering" => AttributeValue::Ordering(constants::DwOrd(n as u8)),
             "FileIndex" => {
-                if v.is_null() {
+                if v.is_null() || v.as_array().map(|a| a.is_empty()) == Some(true) {
                     AttributeValue::FileIndex(None)
                 } else {
                     AttributeValue::FileIndex(Some(self.files[u].expect("unit has no line program")))
